@@ -201,6 +201,7 @@ func report(prop, tier string, seed int, l *Loaded, results []*taskResult, known
 			}
 			if o.Sat > 0 {
 				confirmed := false
+				knownNative := false
 				sort.SliceStable(o.Witnesses, func(i, j int) bool {
 					return !strings.Contains(o.Witnesses[i].Note, "abstraction") && strings.Contains(o.Witnesses[j].Note, "abstraction")
 				})
@@ -222,6 +223,17 @@ func report(prop, tier string, seed int, l *Loaded, results []*taskResult, known
 						}
 					}
 					if failed && len(r.BadAssume) == 0 {
+						// the native run is the ground truth for region membership: a failure
+						// inside a listed region is the known finding, not a new violation
+						if kr := matchKnownTags(known, id, r.Tags); kr != nil {
+							line := fmt.Sprintf("KNOWN-FINDING: property=%s %s [replayed natively: %s]", prop, kr.What, p)
+							if !knownPrinted[kr.What] {
+								knownPrinted[kr.What] = true
+								fmt.Println(line)
+							}
+							knownNative = true
+							continue
+						}
 						confirmed = true
 						violations++
 						fmt.Printf("VIOLATION property=%s replay=%s\n", prop, p)
@@ -233,6 +245,8 @@ func report(prop, tier string, seed int, l *Loaded, results []*taskResult, known
 				}
 				if confirmed {
 					ev.Status = "violated"
+				} else if knownNative {
+					ev.Status = "known-finding"
 				} else {
 					ev.Status = "unreproduced"
 					unreproduced++
@@ -267,8 +281,8 @@ func report(prop, tier string, seed int, l *Loaded, results []*taskResult, known
 					}
 				}
 			}
-			if !knownPrinted[line] {
-				knownPrinted[line] = true
+			if !knownPrinted[what] {
+				knownPrinted[what] = true
 				fmt.Println(line)
 			}
 		}
@@ -396,4 +410,27 @@ func lastLines(s string, n int) string {
 		ls = ls[len(ls)-n:]
 	}
 	return strings.Join(ls, "\n")
+}
+
+func matchKnownTags(known []interp.KnownRegion, id string, tags []string) *interp.KnownRegion {
+	for i := range known {
+		k := &known[i]
+		if k.Obligation != id {
+			continue
+		}
+		ok := true
+		for _, t := range k.Tags {
+			found := false
+			for _, x := range tags {
+				if x == t {
+					found = true
+				}
+			}
+			ok = ok && found
+		}
+		if ok {
+			return k
+		}
+	}
+	return nil
 }
